@@ -706,6 +706,10 @@ def design_case(draw):
         n_on = draw(st.integers(1, 4))
         ons = draw(st.lists(onset, min_size=n_on, max_size=n_on, unique=True))
         alts = draw(st.lists(onset, min_size=n_on, max_size=n_on, unique=True))
+        if draw(st.integers(0, 3)) == 0:
+            # an event shortly before the first kept volume (dummy scans were discarded): BIDS allows
+            # negative onsets and its response falls into the run
+            ons[0] = draw(st.sampled_from([-1.0, -2.5, -0.5]))
         for o, a in zip(ons, alts):
             rows.append([o, draw(st.sampled_from(DURS)), c])
             alt.append(a)
